@@ -161,6 +161,8 @@ def to_param(x, vars_: dict):
         return vars_[x["v"]][x["i"]]
     if "V" in x:
         v = vars_[x["V"]]
+        if "s" in x:                                # a slice of an array variable: v[a:b]
+            return v[x["s"][0]:x["s"][1]]
         return v[0] if isinstance(v, list) else v   # (a scalar declaration is kept as [item])
     if "b" in x:
         return BINARY[x["b"]](to_param(x["l"], vars_), to_param(x["r"], vars_))
@@ -176,6 +178,8 @@ def evaluate(x, assign: dict, decl: dict):
         return int(v) if decl[x["v"]]["dtype"] == "int" else float(v)
     if "V" in x:
         cast = int if decl[x["V"]]["dtype"] == "int" else float
+        if "s" in x:
+            return [cast(v) for v in assign[x["V"]][x["s"][0]:x["s"][1]]]
         if decl[x["V"]].get("scalar"):
             return cast(assign[x["V"]][0])
         return [cast(v) for v in assign[x["V"]]]
@@ -195,7 +199,7 @@ def expr_str(x) -> str:
     if "v" in x:
         return f"{x['v']}[{x['i']}]"
     if "V" in x:
-        return x["V"]
+        return x["V"] + (f"[{x['s'][0]}:{x['s'][1]}]" if "s" in x else "")
     if "b" in x:
         return f"{x['b']}({expr_str(x['l'])},{expr_str(x['r'])})"
     return f"{x['u']}({expr_str(x['a'])})"
@@ -258,10 +262,16 @@ class Ctx:
     def trap_coords(self, trap: int):
         return tuple(self.layout.coords[trap].tolist())
 
-    def detmap(self, weights: list):
+    def detmap(self, weights: list, order: list | None = None):
         """The detuning map of a `detmap` op: weights per declared qubit index, put on the
-        default positions of those qubits (trap coordinates i for qubit i)."""
+        default positions of those qubits (trap coordinates i for qubit i).  `order`: the
+        order in which the traps are handed to `DetuningMap` (not the sorted one)."""
         w = {i: weights[i] for i in range(min(len(weights), self.nq))}
+        if order is not None:
+            from pulser.register.weight_maps import DetuningMap
+
+            idx = [i for i in order if i in w] + [i for i in w if i not in order]
+            return DetuningMap(trap_coordinates=[self.coords[i] for i in idx], weights=[w[i] for i in idx])
         if self.mappable or self.with_layout:
             # (directly: RegisterLayout.define_detuning_map refuses a single trap, finding F13d)
             from pulser.register.weight_maps import DetuningMap
@@ -299,35 +309,61 @@ def spec_of_device(device, nq: int) -> dict:
 # --------------------------------------------------------------------------------------
 # building real objects from op dicts
 # --------------------------------------------------------------------------------------
+KW_STYLE = False   # build waveforms / pulses with keyword arguments only (set per program)
+
+
 def make_wf(w, mk):
     k = w[0]
+    kws = KW_STYLE
     if k == "const":
-        return ConstantWaveform(mk(w[1]), mk(w[2]))
+        return ConstantWaveform(duration=mk(w[1]), value=mk(w[2])) if kws else ConstantWaveform(mk(w[1]), mk(w[2]))
     if k == "ramp":
+        if kws:
+            return RampWaveform(duration=mk(w[1]), start=mk(w[2]), stop=mk(w[3]))
         return RampWaveform(mk(w[1]), mk(w[2]), mk(w[3]))
     if k == "blackman":
-        return BlackmanWaveform(mk(w[1]), mk(w[2]))
+        return BlackmanWaveform(duration=mk(w[1]), area=mk(w[2])) if kws else BlackmanWaveform(mk(w[1]), mk(w[2]))
     if k == "blackman_max":
+        if kws:
+            return BlackmanWaveform.from_max_val(max_val=mk(w[1]), area=mk(w[2]))
         return BlackmanWaveform.from_max_val(mk(w[1]), mk(w[2]))
     if k == "kaiser":
+        if kws:
+            kw = dict(duration=mk(w[1]), area=mk(w[2]))
+            if len(w) > 3:
+                kw["beta"] = mk(w[3])
+            return KaiserWaveform(**kw)
         if len(w) > 3:
             return KaiserWaveform(mk(w[1]), mk(w[2]), mk(w[3]))
         return KaiserWaveform(mk(w[1]), mk(w[2]))
     if k == "kaiser_max":
+        if kws:
+            kw = dict(max_val=mk(w[1]), area=mk(w[2]))
+            if len(w) > 3:
+                kw["beta"] = mk(w[3])
+            return KaiserWaveform.from_max_val(**kw)
         if len(w) > 3:
             return KaiserWaveform.from_max_val(mk(w[1]), mk(w[2]), mk(w[3]))
         return KaiserWaveform.from_max_val(mk(w[1]), mk(w[2]))
     if k == "custom":
         s = w[1]
-        return CustomWaveform(mk(s) if is_expr(s) else [mk(x) for x in s] if has_expr(s) else s)
+        samples = mk(s) if is_expr(s) else [mk(x) for x in s] if has_expr(s) else s
+        return CustomWaveform(samples=samples) if kws else CustomWaveform(samples)
     if k == "interp":
         vals = w[2]
         vals = mk(vals) if is_expr(vals) else vals
+        times = w[3] if len(w) > 3 else None
+        interp = w[4] if len(w) > 4 else None
+        if len(w) > 5 and w[5] == "pos" and interp is not None:
+            # times and interpolator given POSITIONALLY
+            return InterpolatedWaveform(mk(w[1]), vals, times, interp)
         kw = {}
-        if len(w) > 3 and w[3] is not None:
-            kw["times"] = w[3]
-        if len(w) > 4 and w[4] is not None:
-            kw["interpolator"] = w[4]
+        if times is not None:
+            kw["times"] = times
+        if interp is not None:
+            kw["interpolator"] = interp
+        if kws:
+            return InterpolatedWaveform(duration=mk(w[1]), values=vals, **kw)
         return InterpolatedWaveform(mk(w[1]), vals, **kw)
     if k == "composite":
         return CompositeWaveform(*[make_wf(x, mk) for x in w[1]])
@@ -337,15 +373,31 @@ def make_wf(w, mk):
 def make_pulse(p: dict, mk):
     kind = p.get("kind", "pulse")
     post = mk(p.get("post", 0.0))
+    kws = KW_STYLE
     if kind == "pulse":
+        if kws:
+            return Pulse(amplitude=make_wf(p["amp"], mk), detuning=make_wf(p["det"], mk),
+                         phase=mk(p.get("phase", 0.0)), post_phase_shift=post)
         return Pulse(make_wf(p["amp"], mk), make_wf(p["det"], mk), mk(p.get("phase", 0.0)), post)
     if kind == "constdet":
+        if kws:
+            return Pulse.ConstantDetuning(amplitude=make_wf(p["amp"], mk), detuning=mk(p["det"]),
+                                          phase=mk(p.get("phase", 0.0)), post_phase_shift=post)
         return Pulse.ConstantDetuning(make_wf(p["amp"], mk), mk(p["det"]), mk(p.get("phase", 0.0)), post)
     if kind == "constamp":
+        if kws:
+            return Pulse.ConstantAmplitude(amplitude=mk(p["amp"]), detuning=make_wf(p["det"], mk),
+                                           phase=mk(p.get("phase", 0.0)), post_phase_shift=post)
         return Pulse.ConstantAmplitude(mk(p["amp"]), make_wf(p["det"], mk), mk(p.get("phase", 0.0)), post)
     if kind == "constpulse":
+        if kws:
+            return Pulse.ConstantPulse(duration=mk(p["dur"]), amplitude=mk(p["amp"]), detuning=mk(p["det"]),
+                                       phase=mk(p.get("phase", 0.0)), post_phase_shift=post)
         return Pulse.ConstantPulse(mk(p["dur"]), mk(p["amp"]), mk(p["det"]), mk(p.get("phase", 0.0)), post)
     if kind == "arbphase":
+        if kws:
+            return Pulse.ArbitraryPhase(amplitude=make_wf(p["amp"], mk), phase=make_wf(p["phase_wf"], mk),
+                                        post_phase_shift=post)
         return Pulse.ArbitraryPhase(make_wf(p["amp"], mk), make_wf(p["phase_wf"], mk), post)
     raise ValueError(kind)
 
@@ -375,7 +427,7 @@ def apply_op(seq: Sequence, ctx: Ctx, op: dict, mk, omit_defaults: bool = False)
                                 initial_target=None if init is None else qid_list(ctx, init))
     elif k == "detmap":
         dmm = ctx.dmm_ids[op["id"]] if op["id"] < len(ctx.dmm_ids) else f"dmm_{op['id']}"
-        seq.config_detuning_map(ctx.detmap(op["weights"]), dmm)
+        seq.config_detuning_map(ctx.detmap(op["weights"], op.get("order")), dmm)
     elif k == "slm":
         kw = opt({}, "dmm_id", op.get("dmm", "dmm_0"), "dmm_0")
         seq.config_slm_mask(qid_list(ctx, op["qs"]), **kw)
@@ -479,6 +531,19 @@ def seq_snapshot(seq: Sequence, ctx: Ctx, qids=None) -> dict:
     shim.qids = list(qids)
     snap["refs"] = {b: l[: len(qids)] for b, l in snap["refs"].items()}
     snap["chans"] = {c["name"]: c for c in snap["chans"]}
+    for name, sch in seq._schedule.items():
+        dm = getattr(sch, "detuning_map", None)
+        if dm is not None:
+            coords = np.asarray(dm.trap_coordinates, dtype=float).round(6).tolist()
+            ws = [float(x) for x in np.asarray(dm.weights, dtype=float)]
+            entry = snap["chans"][wire_name(name)]
+            entry["detmap"] = sorted([c + [w] for c, w in zip(coords, ws)])
+            if not seq.is_register_mappable():
+                try:
+                    qw = dm.get_qubit_weight_map(seq.register.qubits)
+                    entry["qubit_weights"] = {str(q): float(v) for q, v in qw.items()}
+                except Exception as e:  # noqa: BLE001
+                    entry["qubit_weights"] = f"error:{type(e).__name__}"
     snap["chan_order"] = list(snap["chans"])
     snap.pop("ncalls", None)
     snap["qids"] = [str(q) for q in qids]
@@ -756,7 +821,8 @@ def _alt_wf(rng: random.Random, dur: int, lo: float, hi: float, kinds=None):
     if k == "interp_times" and dur >= 8:
         return ["interp", dur, [v(), v(), v()], [0.0, rng.choice([0.25, 0.5, 0.7]), 1.0]]
     if k == "interp_pchip" and dur >= 8:
-        return ["interp", dur, [v(), v(), v(), v()], None, rng.choice(["PchipInterpolator", "interp1d"])]
+        w = ["interp", dur, [v(), v(), v(), v()], None, rng.choice(["PchipInterpolator", "interp1d"])]
+        return w + ["pos"] if rng.random() < 0.4 else w
     if k == "custom" and dur <= 64:
         return ["custom", [v() for _ in range(dur)]]
     if k == "ramp" and dur >= 2:
@@ -817,6 +883,11 @@ def decorate(rng: random.Random, ctx: Ctx, ops: list, stats=None) -> list:
                 phase_wf = _alt_wf(rng, dur, -3.0, 3.0, ["const", "ramp", "interp_times", "custom"])
                 op["pulse"] = dict(kind="arbphase", amp=p["amp"], phase_wf=phase_wf, post=p.get("post", 0.0))
                 note("pulse:arbphase:" + phase_wf[0])
+        elif k == "detmap" and rng.random() < 0.6:
+            order = list(range(ctx.nq))
+            rng.shuffle(order)
+            op["order"] = order
+            note("detmap:order")
         elif k == "adddmm" and rng.random() < 0.3:
             dur = _wf_duration(op["wf"])
             if dur:
@@ -1090,6 +1161,7 @@ class Parametrizer:
         self.p = p
         self.exotic = exotic
         self.list_of_items = True   # also draw target_index([v0, v1]) (finding F-C08-1)
+        self.slices = False         # also draw slices v[a:b] of array variables
         self.positions = {}  # histogram of parametrised positions
         self.operators = {}  # histogram of expression operators used
 
@@ -1100,6 +1172,20 @@ class Parametrizer:
             if key:
                 self.operators[key] = self.operators.get(key, 0) + 1
         return e
+
+    def array(self, values: list, dtype: str, role: str):
+        """An array-valued expression: a whole variable, or (when `slices`) a slice v[a:b] of a longer one."""
+        cast = int if dtype == "int" else float
+        vals = [cast(x) for x in values]
+        if self.slices and len(vals) >= 1 and self.rng.random() < 0.4:
+            a = self.rng.choice([0, 1, 2])
+            pad = self.rng.choice([0, 1, 2]) if a else self.rng.choice([1, 2])
+            full = [cast(0)] * a + vals + [cast(0)] * pad
+            name = self.pool.fresh(dtype, len(full), full, role)
+            self.positions["slice"] = self.positions.get("slice", 0) + 1
+            return {"V": name, "s": [a, a + len(vals)]}
+        name = self.pool.fresh(dtype, len(vals), vals, role)
+        return {"V": name}
 
     def hit(self, what: str) -> bool:
         if self.rng.random() < self.p:
@@ -1130,12 +1216,10 @@ class Parametrizer:
                 w[2] = self.fexpr(w[2], "area")
         elif k == "interp":
             if self.hit("wf.interp.values") and len(w[2]) <= 6 and (len(w) < 4 or w[3] is None):
-                name = self.pool.fresh("float", len(w[2]), [float(x) for x in w[2]], role)
-                w[2] = {"V": name}
+                w[2] = self.array(list(w[2]), "float", role)
         elif k == "custom":
             if self.hit("wf.custom.samples") and len(w[1]) <= 24:
-                name = self.pool.fresh("float", len(w[1]), [float(x) for x in w[1]], role)
-                w[1] = {"V": name}
+                w[1] = self.array(list(w[1]), "float", role)
         elif k == "composite":
             w[1] = [self.wf(x, None, role) for x in w[1]]
         return w
@@ -1229,8 +1313,7 @@ class Parametrizer:
                 x = self.rng.random()
                 if x < 0.4 and qs:
                     self.positions["target_index.array"] = self.positions.get("target_index.array", 0) + 1
-                    name = pool.fresh("int", len(qs), list(qs), "idx")
-                    op["qs"] = {"V": name}
+                    op["qs"] = self.array(list(qs), "int", "idx")
                 elif x < 0.7 and len(qs) == 1:
                     self.positions["target_index.item"] = self.positions.get("target_index.item", 0) + 1
                     op["qs"] = int_expr(pool, qs[0], "idx")
